@@ -204,6 +204,16 @@ type tierCfg struct {
 	witnessN int
 }
 
+// outDir: evidence and replay files of the registered checks go under /verif; when the engine is
+// pointed at another tree (VERIF_REPO: evaluation of a seeded change in a scratch worktree) they
+// go to a scratch directory instead, so that /verif/evidence only ever describes /repo.
+func outDir() string {
+	if os.Getenv("VERIF_REPO") != "" {
+		return filepath.Join(os.TempDir(), "symgo-scratch")
+	}
+	return verifDir
+}
+
 func checkMain(args []string) int {
 	if len(args) < 2 {
 		fatal("usage: symgo check <property> quick|thorough")
@@ -300,7 +310,7 @@ func checkMain(args []string) int {
 	violations := 0
 	twiceRuns := map[string]int{}
 	knownHits := map[string]bool{}
-	replayDir := filepath.Join(verifDir, "replays", prop)
+	replayDir := filepath.Join(outDir(), "replays", prop)
 	os.RemoveAll(replayDir)
 	var violLines []string
 	sampleViol := []map[string]interface{}{}
@@ -321,6 +331,24 @@ func checkMain(args []string) int {
 			out.Traces = tr
 			ok := out.End == "done" && strsEqual(out.Reached, p.wit.Reached) && len(out.Failed) == 0
 			why := ""
+			if prop == "C19" && out.End == "done" && len(out.Failed) > 0 && strsEqual(out.Reached, p.wit.Reached) {
+				// the sequential part agrees with the engine, and the concurrent phase (which only
+				// exists natively) observed something else than the sequential run: interference
+				// between sessions, confirmed when it happens again in a fresh process
+				again, _, _ := nativeReplay(l, p.short, map[string]*ReplayIn{p.name: p.in}, true)
+				if a := again[p.name]; a != nil && a.End == "done" && len(a.Failed) > 0 {
+					validated++
+					violations++
+					os.MkdirAll(replayDir, 0755)
+					path := filepath.Join(replayDir, p.name+".json")
+					p.in.Expect = &ReplayExpect{Kind: "assert", Assert: out.Failed[0]}
+					b, _ := json.MarshalIndent(p.in, "", " ")
+					os.WriteFile(path, b, 0644)
+					violLines = append(violLines, fmt.Sprintf("VIOLATION property=%s replay=%s", prop, path))
+					fmt.Printf("  detail: harness=%s native concurrent phase failed %v (twice)\n", p.in.Harness, out.Failed)
+					continue
+				}
+			}
 			if prop == "C20" {
 				// the native run uses the real scheduler and real time: its interleaving (hence
 				// which assertions are reached) may differ from the engine's path; what is
@@ -572,9 +600,9 @@ func writeEvidence(prop, tierName string, tier int, seed int64, solver string, l
 			"crypto/tls, net/http parsers, the Go scheduler and GC are not modelled; compress/flate is executed from its own SSA form where its control flow does not depend on symbolic data (stored mode, inputs of <= 3 arbitrary bytes), its compressing levels are outside reach",
 		},
 	}
-	os.MkdirAll(filepath.Join(verifDir, "evidence"), 0755)
+	os.MkdirAll(filepath.Join(outDir(), "evidence"), 0755)
 	b, _ := json.MarshalIndent(ev, "", " ")
-	os.WriteFile(filepath.Join(verifDir, "evidence", prop+".json"), b, 0644)
+	os.WriteFile(filepath.Join(outDir(), "evidence", prop+".json"), b, 0644)
 }
 
 func keysOf(m map[string]bool) []string {
